@@ -396,6 +396,7 @@ type SpecFunc struct {
 	Result  string // "" for pred (bool)
 	Body    *Expr
 	Uninter bool
+	Opaque  bool // body hidden outside the declaring package
 	Pkg     string
 }
 
@@ -440,7 +441,7 @@ var clauseKeywords = map[string]bool{
 	"requires": true, "ensures": true, "modifies": true, "trusted": true, "panics": true, "loop": true,
 	"invariant": true, "at": true, "func": true, "pred": true, "fn": true, "ufn": true, "sort": true,
 	"ghost": true, "axiom": true, "layout": true, "callers": true, "pin": true, "typeshape": true,
-	"lemma": true, "inline": true, "nocall": true, "package": true, "freshresult": true,
+	"lemma": true, "inline": true, "nocall": true, "package": true, "freshresult": true, "opaque": true,
 }
 
 var tagRe = regexp.MustCompile(`^C\d\d(,C\d\d)*$`)
@@ -536,6 +537,19 @@ func (ss *SpecSet) ParseSpecFile(path string, goComments bool, pkgPath string) e
 				return fmt.Errorf("%s:%d: ghost NAME TYPE", path, it.line)
 			}
 			ss.Ghosts[f[0]] = &GhostVar{f[0], f[1]}
+		case "opaque":
+			rest := strings.TrimSpace(it.text)
+			kw := strings.Fields(rest)[0]
+			sf, err := parseSpecFunc(kw, strings.TrimSpace(strings.TrimPrefix(rest, kw)))
+			if err != nil {
+				return fmt.Errorf("%s:%d: %v", path, it.line, err)
+			}
+			sf.Pkg = pkgPath
+			sf.Opaque = true
+			if _, dup := ss.SpecFns[sf.Name]; dup {
+				return fmt.Errorf("%s:%d: duplicate spec function %s", path, it.line, sf.Name)
+			}
+			ss.SpecFns[sf.Name] = sf
 		case "ufn", "pred", "fn":
 			sf, err := parseSpecFunc(it.kw, it.text)
 			if err != nil {
